@@ -165,6 +165,9 @@ class ProgGen:
             # a condition whose TOP node is a unary minus (true while the number is not zero) or a doubled not
             e = U('-', self.num(scope, 2)) if self.r.random() < 0.7 else U('!', U('!', e))
             self.features.add('unary-top-condition')
+        if self.r.random() < 0.07:
+            e = {'group': e}  # the whole test in parentheses: `if (a < b):`
+            self.features.add('parenthesised-condition')
         if self.probes and self.r.random() < 0.3:
             self.tag += 1
             e = C('hp', S(f'c{self.tag}'), e)
